@@ -8,10 +8,11 @@ is shared, as in the Rust.  Specification: `serSpec`, `treeHash`.
 -/
 import ClvmProofs.Lemmas.ClassicAgree
 import ClvmProofs.Lemmas.TreeHashTriples
+import ClvmProofs.Lemmas.ClassicTriples
 
 namespace Clvm.Props.C16
 open Clvm Clvm.Serde.Classic
-open Clvm.TreeHash (treeHash treeHashFromStream parseTriples hashList nodes)
+open Clvm.TreeHash (treeHash treeHashFromStream parseTriples hashList nodes Describes Triple)
 
 /-! ### totality: no panic site is reachable, the fuel of the model loops suffices -/
 
@@ -71,21 +72,25 @@ theorem thash_stream_accepts_iff (b : Bytes) :
 
 /-! ### `parse_triples` agrees with `node_from_stream`
 
-These two statements rest on the lock-step lemmas proved for C22 by the tree-hash component
-(`ClvmProofs/Lemmas/TreeHashTriples.lean`: `parseTriples_of_decodes`, `decodes_of_parseTriples`).
-PARTIAL with respect to C16's "describe the same tree": the number of triples and all sub-tree
-hashes are characterised, the byte offsets stored in the triples (`start`, `end`, `atom_offset`,
-`right_index`) and the `calculate_tree_hashes = false` variant are not; those are covered by the
-implementation-only oracle `classic_decoders` (triples read back from the buffer) and the
-`thash_stream` correspondence stream. -/
+`Describes buf base ts t s e` (`Lemmas/ClassicTriples.lean`) says that the triples `ts` describe
+the tree `t` laid out in `buf[s, e)`: an atom's bytes are `buf[start + atom_offset, end)`; a pair
+starts with `0xff`, its first child is the next triple, its second child is the triple
+`right_index`, the children are contiguous and fill the pair's byte range.  The acceptance
+equivalence rests on the lock-step lemmas proved for C22 by the tree-hash component
+(`Lemmas/TreeHashTriples.lean`).  PARTIAL with respect to the property: only
+`calculate_tree_hashes = true` is characterised by theorems; the `false` variant (same loop
+without the hash bookkeeping) is covered by the `thash_stream` stream and the `classic_decoders`
+oracle (triples of both variants are compared). -/
 
-/-- whenever `node_from_stream` decodes `t`, `parse_triples(f, true)` succeeds, leaves the same
-unread remainder (consumes the same bytes), returns one triple per node of `t` and the tree
-hashes of all sub-trees of `t` in pre-order (the first one is `treeHash t`) -/
-theorem triples_agree_partial (b : Bytes) (t : Tree) (rest : Bytes)
+/-- `triples_describe`: whenever `node_from_stream` decodes `t`, `parse_triples(f, true)` succeeds,
+leaves the same unread remainder (consumes the same bytes), its triples describe `t` laid out in
+exactly the consumed bytes, and its hashes are the tree hashes of all sub-trees of `t` in
+pre-order (the first one is `treeHash t`) -/
+theorem triples_describe (b : Bytes) (t : Tree) (rest : Bytes)
     (h : nodeFromStream b [.sexp] [] = .ok (t, rest)) :
-    ∃ ts, ts.length = nodes t ∧ parseTriples b true = .ok (ts, some (hashList t), rest) :=
-  Clvm.TreeHash.parseTriples_of_decodes b t rest h
+    ∃ ts, ts.length = nodes t ∧ Describes b 0 ts t 0 (b.length - rest.length) ∧
+      parseTriples b true = .ok (ts, some (hashList t), rest) :=
+  Clvm.TreeHash.parseTriples_describes b t rest h
 
 /-- `parse_triples(f, true)` and `node_from_bytes` succeed on exactly the same inputs -/
 theorem triples_accepts_iff (b : Bytes) :
@@ -153,6 +158,12 @@ example : ∃ e, nodeFromBytes [0xfe, 0x01] = .error e := by
   exact ⟨e, by unfold nodeFromBytes; rw [he]⟩
 
 /-! ### non-vacuity -/
+
+/-- the triples of `ff 01 80` (the pair `(1 . nil)`) as `Describes` reads them -/
+example : Describes [0xff, 0x01, 0x80] 0 [.pair 0 3 2, .atom 1 2 0, .atom 2 3 1]
+    (.pair (.atom [1]) (.atom [])) 0 3 :=
+  ⟨[.atom 1 2 0], [.atom 2 3 1], 2, rfl, rfl, ⟨0, rfl, by decide, by decide, rfl⟩,
+    ⟨1, rfl, by decide, by decide, rfl⟩⟩
 
 example : nodeFromBytesConsumed [0xff, 0x01, 0x80, 0x55] = .ok (.pair (.atom [1]) (.atom []), 3) := by
   have := Clvm.Serde.Classic.nodeFromStream_ser (.pair (.atom [1]) (.atom [])) (by decide) [0x55] [] []
